@@ -1,6 +1,8 @@
 package rules
 
 import (
+	ssa "xvc/xssa"
+
 	"xvc/q"
 )
 
@@ -152,8 +154,17 @@ func c06(c *q.Ctx) {
 	// syncBlock: deferred reconciliation after ledger confirmation
 	if f := c.Fn(miner + "(*Miner).syncBlock"); f != nil {
 		nd := 0
-		for _, a := range f.AnonFuncs {
-			if len(q.CallsIn(a, "State.Walk")) > 0 {
+		// the reconciliation is a deferred closure, or a deferred method of the miner with the same body
+		for _, b := range f.Blocks {
+			for _, ins := range b.Instrs {
+				d, ok := ins.(*ssa.Defer)
+				if !ok {
+					continue
+				}
+				a := d.Call.StaticCallee()
+				if a == nil || len(a.Blocks) == 0 || len(q.CallsIn(a, "State.Walk")) == 0 {
+					continue
+				}
 				nd++
 				c.Effect(a, q.Eff{Spec: "State.Walk", Arg: 0, Glob: "*TipBlockid", Req: []q.Cond{{Canon: "bytes.Equal(*)", Sense: false}}, Why: "after confirming downloaded blocks the state is walked to the ledger tip", Rule: "K2"})
 			}
